@@ -102,6 +102,9 @@ pub enum CookieStyle {
     /// distinct cookies; size estimates that do not fit 31 bits: 2^31 on the first page, then
     /// 2^40, then ff ff ff ff (-1)
     HugeEstimate,
+    /// distinct cookies of the given number of octets (length-form boundaries of the cookie, of
+    /// the control value around it and of the request that echoes it)
+    Long(u32),
 }
 
 #[derive(Clone, Debug, Serialize, Deserialize, PartialEq, Eq)]
@@ -109,6 +112,8 @@ pub struct Plan {
     pub rc: u32,
     pub items: Vec<ItemKind>,
     pub item_ctrls: bool,
+    /// frames which would carry no controls carry a present but empty controls element (a0 00)
+    pub empty_ctrls: bool,
     pub res_ctrls: bool,
     pub referral: bool,
     /// paged result-set size (entries), used when the request carries a paging control
@@ -156,6 +161,7 @@ impl Default for Plan {
             rc: 0,
             items: vec![],
             item_ctrls: false,
+            empty_ctrls: false,
             res_ctrls: false,
             referral: false,
             total: 0,
@@ -196,6 +202,9 @@ pub enum FaultKind {
     Garbage,
     /// a complete element that is no LDAPMessage (30 00), the peer then stays connected and silent
     ShortGarbage,
+    /// a complete envelope whose second element announces more octets than the envelope holds
+    /// (30 0c 02 01 02 61 0a + 7 octets); the peer then stays connected and silent
+    InnerOverrun,
     /// a response for the first pending request whose LDAPResult has three well-formed optional
     /// elements and then a malformed one (a responseName that is not UTF-8); the peer stays connected
     BadResultTail,
